@@ -130,12 +130,12 @@ inline json gen_box(int kind, int max_ratio = 0) {
   if (kind == 2) {
     // off-diagonals t*edge with |t| <= 1/2 exactly representable (edge = k/16, t on a 2^-20 lattice): products are exact
     auto off = [](double e) {
-      int mode = ri(0, 9);
+      int mode = ri(0, 24);
       double t;
       if (mode < 2) t = 0.5;            // boundary of the reduction conditions
       else if (mode < 4) t = -0.5;
-      else if (mode < 5) t = 0.0;
-      else if (mode < 8) t = double(ri(-16, 16)) / 32.0;
+      else if (mode < 7) t = 0.0;
+      else if (mode < 16) t = double(ri(-16, 16)) / 32.0;
       else t = rreal(-0.5, 0.5);
       return e * t;
     };
